@@ -1,7 +1,7 @@
 #!/bin/bash
 # reseed.sh [names...]: re-run the property's quick check against every kept seeded change; one line per seed.
 cd /verif
-names=${*:-$(ls seeded)}
+names=${*:-$(ls seeded | grep -v benign)}
 export GOFLAGS=-mod=mod GOPROXY=off GOSUMDB=off GOTOOLCHAIN=local
 for name in $names; do
   src=/verif/seeded/$name
@@ -9,7 +9,7 @@ for name in $names; do
   d=/tmp/reseed-$$-$name
   git -C /repo worktree add -q --detach $d HEAD || continue
   tag=$(python3 -c "import hashlib;print(hashlib.sha1('$d'.encode()).hexdigest()[:8])")
-  if git -C $d apply $src/patch.diff 2>/dev/null; then
+  if git -C $d apply $src/patch.diff 2>/dev/null || { git -C $d apply -3 $src/patch.diff 2>/dev/null && ! git -C $d diff --name-only --diff-filter=U | grep -q .; }; then
     out=$(VERIF_REPO=$d VERIF_MAXVIOL=1 timeout 900 ./check $prop quick 2>&1); rc=$?
     key=$(echo "$out" | grep -a -m1 '^  key:' | cut -c1-100)
     echo "$name $prop rc=$rc $key"
